@@ -30,9 +30,10 @@ EXTENDS Pool, Integers, TLC, Json, IOUtils
 
 VARIABLES i,        \* index of the next event
           seen,     \* [arena -> last observed statistics [n, sz, al, first]]
-          nfrees    \* number of base-allocator frees that the pool-wide resets so far account for
+          nfrees,   \* number of base-allocator frees that the pool-wide resets so far account for
+          mycs      \* [Threads -> sequence number of the thread's latest critical section]
 
-tvars == <<vars, i, seen, nfrees>>
+tvars == <<vars, i, seen, nfrees, mycs>>
 
 Trace == ndJsonDeserialize(IOEnv.TRACE)
 N     == Len(Trace)
@@ -47,7 +48,7 @@ See(a, o)        == seen' = [x \in DOMAIN seen \cup {a} |-> IF x = a THEN ObsRec
 RECURSIVE SumTo(_, _)
 SumTo(f, n) == IF n = 0 THEN 0 ELSE f[n] + SumTo(f, n - 1)
 
-TInit == Init /\ i = 1 /\ seen = <<>> /\ nfrees = 0
+TInit == Init /\ i = 1 /\ seen = <<>> /\ nfrees = 0 /\ mycs = [t \in Threads |-> 0]
 
 TRunStart ==
     /\ Is("run_start")
@@ -55,12 +56,13 @@ TRunStart ==
     /\ has' = [t \in Threads |-> NoArena] /\ fresh' = [t \in Threads |-> FALSE]
     /\ blocks' = <<>> /\ chunks' = <<>> /\ round' = [t \in Threads |-> 0] /\ phase' = 0 /\ alive' = TRUE
     /\ nseq' = 0 /\ peak' = 0 /\ speak' = 0 /\ written' = {} /\ everCreated' = 0 /\ leaked' = {}
-    /\ seen' = <<>> /\ nfrees' = 0 /\ Adv
+    /\ seen' = <<>> /\ nfrees' = 0 /\ mycs' = [t \in Threads |-> 0] /\ Adv
 
-Keep == UNCHANGED <<seen, nfrees>> /\ Adv
+Keep == UNCHANGED <<seen, nfrees, mycs>> /\ Adv
 
 TGetWant  == Is("get_want")  /\ GetCall(ev.t) /\ Keep
-TGetCs    == Is("get_cs")    /\ GetLock(ev.t) /\ ev.seq = nseq + 1 /\ ev.idle = Len(idle) /\ Keep
+TGetCs    == Is("get_cs")    /\ GetLock(ev.t) /\ ev.seq = nseq + 1 /\ ev.idle = Len(idle)
+             /\ mycs' = [mycs EXCEPT ![ev.t] = ev.seq] /\ UNCHANGED <<seen, nfrees>> /\ Adv
 TCreate   == Is("create")    /\ GetCreateBegin(ev.t, ev.arena) /\ Keep
 TGetPost  == Is("get_post")  /\ (GetPop(ev.t) \/ GetCreateEnd(ev.t)) /\ Keep
 TGetFail  == Is("get_fail")  /\ GetCreateFail(ev.t) /\ Keep
@@ -72,10 +74,13 @@ TGetDone ==
        /\ ev.damaged = <<>>
        /\ TwinAgrees(ev.obs, ev.twin)
        /\ ev.obs.n = chunks[has[t]]
-       /\ IF fresh[t] THEN ev.obs.al = 0
+       \* a fresh arena: its first chunk was requested inside the thread's own critical section (no other critical section
+       \* was entered since) and, in particular, while no arena was idle
+       /\ IF fresh[t] THEN ev.obs.al = 0 /\ ev.at_alloc.cs = mycs[t]
+                           /\ NoIdleAtCreationC(ev.at_alloc.pushed - ev.at_alloc.pops)
                       ELSE ev.arena \in DOMAIN seen /\ ObsRec(ev.obs) = seen[ev.arena]   \* untouched while idle
        /\ See(ev.arena, ev.obs)
-    /\ UNCHANGED nfrees /\ Adv
+    /\ UNCHANGED <<nfrees, mycs>> /\ Adv
 TUse ==
     /\ Is("use")
     /\ LET t == ev.t  a == has[ev.t] IN
@@ -85,7 +90,7 @@ TUse ==
        /\ a \in DOMAIN seen /\ ev.obs.al > seen[a].al /\ ev.obs.first = seen[a].first
        /\ Use(t, ev.obs.n - chunks[a])
        /\ See(a, ev.obs)
-    /\ UNCHANGED nfrees /\ Adv
+    /\ UNCHANGED <<nfrees, mycs>> /\ Adv
 TDropWant == Is("drop_want") /\ DropCall(ev.t) /\ Keep
 TDropCs   == Is("drop_cs")   /\ DropLock(ev.t) /\ ev.seq = nseq + 1 /\ ev.idle = Len(idle) /\ Keep
 TDropPost == Is("drop_post") /\ DropPush(ev.t) /\ Keep
@@ -127,7 +132,7 @@ TPoolReset ==
     /\ nfrees' = ev.ledger.total_frees
     /\ ev.damaged = <<>>                      \* what lives in leaked arenas survives the reset
     /\ seen' = [a \in DOMAIN seen |-> IF InIdle(a) THEN ObsRec(AfterOf(a)) ELSE seen[a]]
-    /\ Adv
+    /\ UNCHANGED mycs /\ Adv
 
 TPoolResetToStart ==
     /\ Is("pool_reset_to_start") /\ PoolResetToStart
@@ -141,7 +146,7 @@ TPoolResetToStart ==
     /\ LedgerClean(ev.ledger) /\ ev.ledger.total_frees = nfrees
     /\ ev.damaged = <<>>
     /\ seen' = [a \in DOMAIN seen |-> IF InIdle(a) THEN ObsRec(AfterOf(a)) ELSE seen[a]]
-    /\ UNCHANGED nfrees /\ Adv
+    /\ UNCHANGED <<nfrees, mycs>> /\ Adv
 
 TPoolDrop ==
     /\ Is("pool_drop") /\ PoolDrop
